@@ -480,6 +480,24 @@ def check(case, ctx):
             except Reject as e:
                 reject = str(e)
     steps = [build_step(case)]
+    if op == 'computed' and not case.get('use_kw'):
+        # the caller's specification objects serve a second flow as well: an earlier, separate run with the very same
+        # objects must not change what they mean
+        shared = []
+        for s_ in case['specs']:
+            d_ = {'target': copy.deepcopy(s_['target'])}
+            d_['operation'] = CALLABLES[s_['callable']] if s_['operation'] == 'callable' else s_['operation']
+            if 'source' in s_:
+                d_['source'] = list(s_['source'])
+            if 'with' in s_:
+                d_['with'] = s_['with']
+            shared.append(d_)
+        try:
+            run_steps([dataflows.add_computed_field(shared, resources=copy.deepcopy(case['sel']))], desc, tables)
+        except Exception:
+            pass
+        steps = [dataflows.add_computed_field(shared, resources=copy.deepcopy(case['sel']))]
+        classes.append('specification-objects-used-twice')
     if case.get('then'):
         steps.append(then_step(case))
         classes.append('then:' + case['then'] + ('-with-second-target' if len(case['targets']) > 1 else ''))
